@@ -46,6 +46,8 @@ def json_escape(run,bl):
             elif x<0x20: out.extend(b'\\u00'+bytes([HEX[x>>4],HEX[x&15]]))
             else: out.append(x)
             continue
+        ax=allowed(x)
+        if ax is not None and all(v>=0x20 and v not in (0x22,0x5c) for v in ax): out.append(x); continue
         opts=[x==k for k in ESC]+[z3.And(z3.ULT(x,0x20),*[x!=k for k in ESC]),z3.And(z3.UGE(x,0x20),x!=0x22,x!=0x5c)]
         k=run.choose(opts,'jsonescape')
         keys=list(ESC)
@@ -84,12 +86,12 @@ def decimal_digits(run,mag,width=64):
         opts.append(c)
     k=run.choose(opts,'ndigits')+1
     n=run.fresh_n['itoa']; run.fresh_n['itoa']+=1
-    ds=[z3.BitVec('itoa%d_d%d'%(n,i),8) for i in range(k)]
+    ds=[note_allowed(z3.BitVec('itoa%d_d%d'%(n,i),8),b'0123456789') for i in range(k)]
     total=z3.BitVecVal(0,W)
     for d in ds:
-        run.solver.add(z3.UGE(d,0x30),z3.ULE(d,0x39))
+        run.add(z3.UGE(d,0x30),z3.ULE(d,0x39))
         total=total*10+z3.ZeroExt(W-8,d-0x30)
-    run.solver.add(total==m)
+    run.add(total==m)
     return ds
 def m_itoa_new(e,run,a,f): return Opaque('itoa::Buffer')
 def m_itoa_format(e,run,a,f):
